@@ -266,6 +266,21 @@ def main(ctx):
     for b in BASES:
         jobs_sim += gen_sim(ctx, "sim_%s" % b, cfg_text(base=b, depth=40, invs=False, props=False),
                             nsim // 3, 10 if quick else 16, ctx.seed + 2)
+    if not quick:
+        # a fourth base, thorough tier only: two air-spaced elements (6 surfaces, object at infinity,
+        # stop inside the second element) - every edit history of depth 3 model-checked with all
+        # invariants and frame properties, dumped and replayed, plus simulated longer histories
+        b = "AirSpaced"
+        ctx.model_check("MC_Lens", write_cfg(ctx, "edit_%s.cfg" % b, cfg_text(base=b, depth=3, maxsurf=6)),
+                        workers=16)
+        jobs_as = gen_dump(ctx, "gen_%s" % b,
+                           cfg_text(base=b, depth=3, maxsurf=6, radii="SmallRadii", thick="SmallThick",
+                                    invs=False, props=False), None)
+        # (kept out of jobs_sim: the code -> spec step below draws its histories from jobs_sim)
+        jobs_as += gen_sim(ctx, "sim_%s" % b, cfg_text(base=b, depth=40, maxsurf=6, invs=False, props=False),
+                           nsim // 3, 16, ctx.seed + 2)
+        ctx.extra["behaviours_replayed_AirSpaced"] = len(jobs_as)
+        jobs += jobs_as
     if quick and len(jobs) > 6000:
         jobs = rnd.sample(jobs, 6000)
     ctx.extra["behaviours_replayed_exhaustive_dump"] = len(jobs)
